@@ -194,7 +194,7 @@ def design(ctx, thorough):
 
     k12 = [["k1", "k2"]]
     # filtering + authority hand-over + re-subscription, one ready streamer
-    go("qa", design_cast(["w1", "w2"], ["s1"], [["k1"], ["k2"]], k12, 2, 1), Ready=tla_set(["s1"]),
+    go("qa", design_cast(["w1", "w2"], ["s1"], [["k2"]], k12, 2, 1), Ready=tla_set(["s1"]),
        CloseModes=tla_set(["graceful"]))
     # a ready and a sleepy streamer, connect / disconnect / timeouts
     go("qb", design_cast(["w1"], ["s1", "s2"], [["k1"], ["k2"]], k12, 2, 0), Ready=tla_set(["s1"]),
@@ -304,6 +304,7 @@ def harness_profile(p, mode):
         "sleepy": p["sleepy_lossy"] if mode == "lossy" else [], "keys": p["keys"], "B": p["B"],
         "outcap": p["outcap"], "timeout_ms": COMPLETE_TIMEOUT_MS if mode == "complete" else 20,
         "max_sleep_ms": 70 if mode == "lossy" else 0, "pad": p.get("pad", 0),
+        "close_after": p.get("close_after", {}),
     }
 
 
@@ -622,10 +623,6 @@ def one_config(ctx, p, mode, scripts, rnd, tag, race, cov):
     nwb = len([1 for _, r in blocked if blocked_signature(mode, r)[1]])
     for scn, r in blocked[:1]:
         handle_blocked(ctx, p, mode, scn, r, race, independent=nwb >= 2)
-    if errors and not ctx.violations:
-        scn, r = errors[0]
-        raise vlib.Inconclusive("cesium returned an error the scripts do not expect (%s/%s scenario %d): %s" % (
-            p["name"], mode, scn["i"], r.get("detail")))
     if cov["mech"].get("group_mismatch"):
         raise vlib.Inconclusive("StreamerResponse.Group differs from the writer's control group (pinned beyond the property)")
     t_v = time.time()
@@ -665,6 +662,10 @@ def one_config(ctx, p, mode, scripts, rnd, tag, race, cov):
         if c:
             seen_classes[c] = seen_classes.get(c, 0) + 1
     handle_rejections(ctx, p, mode, rejected, race, seen_classes)
+    if errors and not ctx.violations:
+        scn, r = errors[0]
+        raise vlib.Inconclusive("cesium returned an error the scripts do not expect (%s/%s scenario %d): %s" % (
+            p["name"], mode, scn["i"], r.get("detail")))
 
 
 def rerun(ctx, p, mode, scn, n, tag, race):
